@@ -18,8 +18,13 @@ func (x *Exec) atCallAsserts(st *State, fr *Frame, callee string, pnames []strin
 	if fr.callOrd == nil {
 		return
 	}
-	fr.callOrd[callee]++
-	ord := fr.callOrd[callee]
+	ck := fmt.Sprintf("%d|%s", fr.depth, callee)
+	if st.callOrd == nil {
+		st.callOrd = map[string]int{}
+	}
+	st.callOrd[ck]++
+	ord := st.callOrd[ck]
+	fr.callOrd[callee] = ord
 	if so := x.E.siteOrdinal(fr.fn, x.curSite, callee); so > 0 {
 		ord = so
 	}
@@ -400,7 +405,12 @@ func (x *Exec) goStmt(st *State, fr *Frame, g *ssa.Go) {
 func (x *Exec) chanSend(st *State, fr *Frame, s *ssa.Send) {
 	ch := x.reg(st, fr, s.Chan)
 	v := x.reg(st, fr, s.X)
+	// a send is also a named event: "at call K of send assert ..." with arg.ch, arg.value
+	x.curSite = s
+	x.atCallAsserts(st, fr, "send", []string{"ch", "value"}, []Val{ch, v}, x.pos(s.Pos()))
+	sets := x.withGhostSets(fr, "send", []string{"ch", "value"}, []Val{ch, v}, nil, func(*State, Val) {})
 	x.chanSendVal(st, fr, ch, v, x.pos(s.Pos()))
+	sets(st, Val{})
 }
 
 func chanKey(ch Val) string { return "chan!" + ch.L[0].String() }
@@ -750,6 +760,11 @@ func (E *Engine) siteOrdinal(fn *ssa.Function, site ssa.Instruction, callee stri
 		n := 0
 		for _, b := range fn.Blocks {
 			for _, in := range b.Instrs {
+				if snd, isSend := in.(*ssa.Send); isSend {
+					n++
+					all = append(all, cs{snd, "send", n})
+					continue
+				}
 				ci, ok := in.(ssa.CallInstruction)
 				if !ok {
 					continue
@@ -762,6 +777,11 @@ func (E *Engine) siteOrdinal(fn *ssa.Function, site ssa.Instruction, callee stri
 					name = "(" + typeKey(c.Value.Type()) + ")." + c.Method.Name()
 				case c.StaticCallee() != nil:
 					name = fullName(c.StaticCallee())
+				default:
+					// a call through a local variable that only ever holds one function literal
+					if f := singleClosureOf(c.Value); f != nil {
+						name = fullName(f)
+					}
 				}
 				all = append(all, cs{in, name, n})
 			}
